@@ -54,6 +54,8 @@ def boot():
     if os.path.exists(p):
         steps = json.load(open(p))
     BOOT['steps'] = steps
+    p = os.path.join(os.path.dirname(__file__), 'calls.json')
+    BOOT['calls'] = json.load(open(p)) if os.path.exists(p) else {}
     p = os.path.join(os.path.dirname(__file__), 'funcs.json')
     BOOT['funcs'] = json.load(open(p)) if os.path.exists(p) else {}
     # executable lines inside functions of pymeeus (denominator of the pre-emption-line measure)
